@@ -42,6 +42,18 @@ def build(lead, lens, trailing, scale):
         b0 = (4 << 30) + 8192
         segs = [[0, 4096], [b0, 70000], [b0 + (64 << 20) * scale, 4096]]
         return segs[-1][0] + 4096 + (MIN_HOLE if trailing == "hole" else 0), segs
+    if lens and lens[0] == "mostly-data":
+        # well over a hundred MiB of data around a single hole of the minimum size: the holes are a tiny share of the file
+        _, a_mb, b_mb, where = lens
+        hole = MIN_HOLE * scale
+        if where == "lead":
+            segs = [[hole, (a_mb + b_mb) << 20]]
+            return hole + ((a_mb + b_mb) << 20), segs
+        if where == "trail":
+            segs = [[0, (a_mb + b_mb) << 20]]
+            return ((a_mb + b_mb) << 20) + hole, segs
+        segs = [[0, a_mb << 20], [(a_mb << 20) + hole, b_mb << 20]]
+        return (a_mb << 20) + hole + (b_mb << 20), segs
     segs, pos = [], 0
     if lead:
         pos += MIN_HOLE * scale
@@ -74,6 +86,15 @@ def gen_cases(tier, seed):
                "workers": r.choice([1, 2, 4, 16]), "prior": r.choice(["absent", "absent", "full"]), "sync": r.random() < 0.6,
                "fs": "tmpfs" if r.random() < 0.35 else "ext4", "seed": r.randrange(1, 1 << 30), "xdev": r.random() < 0.25,
                "extra": r.choice([[], [], [], ["--fsync"], ["--no-perms", "--no-timestamps"], ["--reflink", "never"], ["--backup", "numbered"], ["--ownership"], ["-L"]])}
+    yield from gen_mostly_data(tier, seed)
+
+
+def gen_mostly_data(tier, seed):
+    r = random.Random(seed * 1299709 + 111)
+    for i in range(6 if tier == "quick" else 40):
+        yield {"driver": ["parblock", "parfile"][i % 2], "lead": False, "lens": ["mostly-data", r.choice([60, 100, 130]), r.choice([40, 70]), ["mid", "lead", "trail"][(i // 2) % 3]],
+               "trailing": "data", "nseg": 2, "block": r.choice(["64KB", "1MB", "16MB", "np"]), "workers": r.choice([1, 4, 16]), "prior": r.choice(["absent", "absent", "full"]), "sync": True,
+               "fs": "tmpfs" if i % 5 == 4 else "ext4", "seed": r.randrange(1, 1 << 30), "xdev": False, "extra": []}
 
 
 def alloc(path):
@@ -162,10 +183,10 @@ def run_case(case):
             if not r8["same"]:
                 res["viol"].append({"sig": sig0 + ":bytes", "what": "destination bytes differ from source (holes x8); " + tag})
             res["counters"]["scaled-pairs"] = 1
-        segsz = max([l[0] for l in case["lens"] if l != "huge"] or [0])
+        segsz = max([l[0] for l in case["lens"] if isinstance(l, (tuple, list))] or [0])
         bsv = {"4096": 4096, "64KB": 65536, "1MB": 1000000, "16MB": 16000000, "np": 1 << 62}[case["block"]]
         res["evals"].append({"key": [case["driver"], case["fs"] + ("<-other" if case.get("xdev") else ""), "blk<seg" if bsv < segsz else "blk>=seg", "n=%s" % (case["nseg"] if case["nseg"] < 4 else "4-32" if case["nseg"] <= 32 else ">32"),
-                                     case["lead"], case["trailing"], case["prior"]],
+                                     "mostly-data:" + case["lens"][3] if case["lens"] and case["lens"][0] == "mostly-data" else case["lead"], case["trailing"], case["prior"]],
                              "sample": {"args": r1["args"], "fs": case["fs"], "apparent_size": r1["size"], "segments": r1["segs"][:6], "n_segments": len(r1["segs"]),
                                         "src_alloc": r1["src_alloc"], "dst_alloc": r1["dst_alloc"], "dst_alloc_holes_x8": r8["dst_alloc"] if r8 else None}})
         res["counters"]["exit0"] = 1
